@@ -206,7 +206,7 @@ var checks = map[string]Check{
 	},
 	"C03": {
 		Level:       "model_checking",
-		Rule:        "a scripted raw peer sends every frame of the alphabet {type byte x route x body x codec id x metadata} to a real server for every plugin veto stage and with/without unknown-handlers, then a probe call; all non-preemptive schedules (bound 0) for single frames, all interleavings up to the bound for every pair of back-to-back frames (same/different seq, blocking/panicking/erroring handlers); the oracle parses the server's wire output with an independent frame parser (raw protocol); the same alphabet and pairs also through the json, pb, thrift-binary and http protocols (frames built and parsed with the protocol's own Pack/Unpack, whose round trip is checked under C05); plus every history of depth 4 (quick) / 6 over {CALL, server push with a one-hour write deadline, server push without deadline, two hours pass on the network clock}: every CALL still gets exactly one reply",
+		Rule:        "a scripted raw peer sends every frame of the alphabet {type byte x route x body x codec id x metadata} to a real server for every plugin veto stage and with/without unknown-handlers, then a probe call; all non-preemptive schedules (bound 0) for single frames, all interleavings up to the bound for every pair of back-to-back frames (same/different seq, blocking/panicking/erroring handlers); the oracle parses the server's wire output with an independent frame parser (raw protocol); the same alphabet and pairs also through the json, pb, thrift-binary and http protocols (frames built and parsed with the protocol's own Pack/Unpack, whose round trip is checked under C05); plus a PUSH or CALL whose handler stays blocked until the CALL received right behind it has been answered (all interleavings at bound 1/2, five protocols); plus every history of depth 4 (quick) / 6 over {CALL, server push with a one-hour write deadline, server push without deadline, two hours pass on the network clock}: every CALL still gets exactly one reply",
 		Assumptions: baseAssumptions,
 		Jobs: func(tier string) []Job {
 			var js []Job
@@ -223,6 +223,16 @@ var checks = map[string]Check{
 				js = append(js, sched("c03_pair", "", 2, 16))
 			} else {
 				js = append(js, sched("c03_pair", "", 1, 4))
+			}
+			// a handler (push or call) that stays blocked until the CALL behind it has been answered
+			for _, pr := range []string{"raw", "json", "pb", "thrift", "http"} {
+				sl := sched("c03_slow", "proto="+pr, 1, 2)
+				if tier == "thorough" {
+					sl.Bound = 2
+					sl.Shards = 4
+					sl.Budget = 120
+				}
+				js = append(js, sl)
 			}
 			// messages with and without a write deadline alternating with calls while the network clock advances
 			dl := sched("c03_deadline", "depth=4", 0, 1)
@@ -410,7 +420,7 @@ var checks = map[string]Check{
 	},
 	"C15": {
 		Level:       "model_checking",
-		Rule:        "explicit enumeration of all histories up to depth 3 (quick) / 4 over 18 operations {ok call, 7 failure probes, proxied call with backend error, proxied call/push with backend down, secure key mismatch, auth reject, overload reject, pending call cut by a corrupt frame, unknown-route and OK replies whose write fails, push whose write fails}; after each history every failure probe is repeated and its (code,msg,cause) compared with the triple observed before the history in the same pristine-restored process, and every predefined status is compared field by field",
+		Rule:        "explicit enumeration of all histories up to depth 3 (quick) / 4 over 22 operations {ok call, 7 failure probes, proxied call with backend error, proxied call/push with backend down, secure key mismatch, auth reject, overload reject, pending call cut by a corrupt frame, unknown-route and OK replies whose write fails, push whose write fails with a transient error / end of file / closed pipe / broken pipe / connection reset}; after each history every failure probe is repeated and its (code,msg,cause) compared with the triple observed before the history in the same pristine-restored process, and every predefined status is compared field by field",
 		Assumptions: append([]string{"the predefined statuses are restored to their pristine values at the start of every execution (they are process-global), so every history starts from the documented state"}, baseAssumptions...),
 		Jobs: func(tier string) []Job {
 			d := "3"
